@@ -29,6 +29,22 @@ Proof.
     unfold entries in He'. apply in_map_iff in He' as (im' & <- & Him'). exact (Hno im' Him' Ee').
 Qed.
 
+(* `inherit` is required whatever the module's own generic bindings are called: the parent is added AFTER the
+   bindings are subtracted (def.rs required_symbols, step 3), so `Host(P <- Iface)` with `inherit: P` waits for a
+   global definition P *)
+Lemma inherit_is_required : forall self m p, md_inherit m = Some p -> In p (required_symbols self m).
+Proof.
+  intros self m p H. unfold required_symbols. apply in_or_app. right. apply in_or_app. right. rewrite H. left. reflexivity.
+Qed.
+
+Theorem inherit_of_own_binding_unresolvable : forall fx d im p,
+  In im (d_modules d) -> md_inherit (snd im) = Some p -> is_binding (tc_args (fst im)) p = true ->
+  (forall im', In im' (d_modules d) -> tc_ident (fst im') <> p) ->
+  transform fx d = Err K_UNRESOLVABLE_DEPENDENCY.
+Proof.
+  intros fx d im p Him Hinh _ Hno. eapply unknown_type_unresolvable; [exact Him|apply inherit_is_required; exact Hinh|exact Hno].
+Qed.
+
 (* a dependency cycle: definitions each of which requires the name of one of them, the names being
    defined nowhere else *)
 Theorem dependency_cycle_unresolvable : forall fx d (C : list (TypClause Generic * ModuleDef)),
